@@ -261,6 +261,19 @@ def corpus():
                             sats=[dict(sys="G", prn=1, pad="0", cells=[cell(20000000000 + k), cell(100000000 + k)])]) for k in range(11)]
         f["sampling"] = [1, 5]
         out.append((f"ten_hz_to_five_hz_v{version}", f))
+    # sessions running over New Year: epoch records in the calendar year after TIME OF FIRST OBS (two-digit year of RINEX 2 must be
+    # combined with the CENTURY of the first observation, not with its year); without / with TIME OF LAST OBS; 1999 -> 2000
+    for version in (2, 3):
+        for y0, last in ((2017, None), (2017, "next"), (2017, "same"), (1999, None)):
+            f = json.loads(json.dumps(dict(out)[f"ten_hz_to_five_hz_v{version}"]))
+            times = [[y0, 12, 31, 23, 59, 30 * 10 ** 7], [y0 + 1, 1, 1, 0, 0, 0], [y0 + 1, 1, 1, 0, 0, 30 * 10 ** 7]]
+            f["hdr"]["first"] = times[0]
+            f["hdr"]["last"] = {None: None, "next": times[-1], "same": [y0, 12, 31, 23, 59, 59 * 10 ** 7]}[last]
+            f["epochs"] = [dict(t=t, clk=None, comment_after=[],
+                                sats=[dict(sys="G", prn=1, pad="0", cells=[cell(20000000000 + k), cell(100000000 + k)])]) for k, t in enumerate(times)]
+            f["sampling"] = None
+            f["new_year"] = True
+            out.append((f"new_year_v{version}_{y0}_last_{last}", f))
     # epochs on the grid and 1e-7 .. 5e-4 s off it, integer and dyadic rates: float '%' is exact there, comparison is strict
     for version, rate, secs7 in ((2, [30, 1], [0, 300002000, 599999999, 600000000, 900000001, 1199995001]),
                                  (3, [1, 1], [0, 10003000, 19998000, 20000000, 29999999, 30000001]),
@@ -335,6 +348,8 @@ def run(ctx):
         ctx.count("nsys:%d" % len(f["systypes"]))
         if rep["blank_observation_line"]:
             ctx.count("class:blank_observation_line")
+        if f.get("new_year"):
+            ctx.count("class:new_year_session(files)")
         if f.get("near_grid"):
             ctx.count("class:near_grid_epochs(files)")
             ctx.count("class:near_grid_epochs(off-grid epochs within 5e-4 s)", sum(1 for e in f["epochs"] if not epoch_on_grid(e, f["sampling"])))
